@@ -12,7 +12,7 @@ from .common import Discard, run_alg, well_formed, dataset_tags
 
 ID = "C05"
 ENVS = ["absent", "present", "broken", "present"]
-RUNS = {"quick": 1600, "thorough": 24000}
+RUNS = {"quick": 6400, "thorough": 64000}
 RULE = ("case = (dataset, valid dyadic scheme) solved by every exact entry point available in the cell's cplex "
         "environment; distinct = distinct case digest; non-trivial = at least one ILP was really built and solved "
         "(a component that cannot be all-tied reached CBC or the stand-in) and compared with the brute-force optimum")
